@@ -28,6 +28,7 @@ type vrtHookTopics struct {
 	onSubscribe   func(filter []byte)
 	onUnsubscribe func(filter []byte)
 	onRetained    func(filter []byte)
+	onSubscribers func(topic []byte)
 }
 
 func (h *vrtHookTopics) Subscribe(topic []byte, qos byte, sub interface{}) (byte, error) {
@@ -35,6 +36,13 @@ func (h *vrtHookTopics) Subscribe(topic []byte, qos byte, sub interface{}) (byte
 		h.onSubscribe(topic)
 	}
 	return h.Provider.Subscribe(topic, qos, sub)
+}
+
+func (h *vrtHookTopics) Subscribers(topic []byte, qos byte, subs *[]interface{}, qoss *[]byte) error {
+	if h.onSubscribers != nil {
+		h.onSubscribers(topic)
+	}
+	return h.Provider.Subscribers(topic, qos, subs, qoss)
 }
 
 func (h *vrtHookTopics) Retained(topic []byte, msgs *[]*message.PublishMessage) error {
